@@ -82,6 +82,17 @@ def peel(n):
             return n
 
 
+def expand_arms(arms):
+    """`A | B => body` is the same as two arms with that body: each version must still get its own conversion"""
+    out = []
+    for pat, guard, body in arms:
+        if H.tag(pat) == "por":
+            out += [(p, guard, body) for p in pat[1]]
+        else:
+            out.append((pat, guard, body))
+    return out
+
+
 def check_dispatch(ctx, F):
     n = 0
     for prefix in ("", "tokio_", "astd_"):
@@ -97,7 +108,7 @@ def check_dispatch(ctx, F):
             if m is None or H.local_name(m[1]) != "protocol_version":
                 ctx.violate("coll.dispatch", f"{key}|shape", f"{key}: no match on the protocol_version parameter — review", fn["file"], fn["line"])
             else:
-                for pat, guard, body in m[3]:
+                for pat, guard, body in expand_arms(m[3]):
                     if H.tag(pat) != "ppath" or guard is not None:
                         ctx.violate("coll.dispatch", f"{key}|arm", f"{key}: unexpected arm pattern {H.short(pat)}", fn["file"], fn["line"])
                         continue
@@ -134,7 +145,7 @@ def check_dispatch(ctx, F):
         if m is None or H.local_name(m[1]) != "protocol_version":
             ctx.violate("coll.dispatch", f"{key}|shape", f"{key}: no match on the protocol_version parameter — review", fn["file"], fn["line"])
             continue
-        for pat, guard, body in m[3]:
+        for pat, guard, body in expand_arms(m[3]):
             if H.tag(pat) != "ppath" or guard is not None:
                 ctx.violate("coll.dispatch", f"{key}|arm", f"{key}: unexpected arm pattern {H.short(pat)}", fn["file"], fn["line"])
                 continue
